@@ -29,6 +29,13 @@ class DocActions(object):
 
     self._engine.add_records(table_id, row_ids, column_values)
 
+    # As for updates: a value set explicitly for a data column with a trigger formula is kept,
+    # even if the same action also sets something the trigger formula depends on.
+    for col_id in column_values:
+      col = table.get_column(col_id)
+      if not col.is_formula():
+        self._engine.prevent_recalc(col.node, row_ids, should_prevent=True)
+
   def RemoveRecord(self, table_id, row_id):
     return self.BulkRemoveRecord(table_id, [row_id])
 
